@@ -21,6 +21,9 @@ type CondEval struct {
 	OnUnknown  func(e ast.Expr) // called for each non-atom leaf forked
 	// Fold evaluates a leaf from the state alone (tracked constants …).
 	Fold func(e ast.Expr, s S) (val, ok bool)
+	// Leaf lets the client decide a leaf and refine the state on each edge
+	// (tried first).
+	Leaf func(e ast.Expr, s S) (t, f []S, handled bool)
 }
 
 type sv struct {
@@ -75,6 +78,18 @@ func (ce *CondEval) eval(e ast.Expr, s S) []sv {
 				} else {
 					out = append(out, ce.eval(x.Y, r.s)...)
 				}
+			}
+			return out
+		}
+	}
+	if ce.Leaf != nil {
+		if t, f, ok := ce.Leaf(e, s); ok {
+			var out []sv
+			for _, x := range t {
+				out = append(out, sv{x, true})
+			}
+			for _, x := range f {
+				out = append(out, sv{x, false})
 			}
 			return out
 		}
